@@ -42,6 +42,25 @@ var c12TargetWriting = map[string]bool{
 	"yqlib.copyFileContents/os.Create": true,
 }
 
+// inheritedRole: fn is called only directly, and every caller holds a role for this callee
+// (itself or, one more level up, through the same rule); returns the holder's table key.
+func inheritedRole(fn *ssa.Function, callee string) string {
+	holder := ""
+	ok := callersEstablish(fn, func(call *ssa.CallCommon, at *ssa.BasicBlock) bool {
+		caller := at.Parent()
+		k := funcKey(caller) + "/" + callee
+		if _, has := c12Roles[k]; has {
+			holder = k
+			return true
+		}
+		return false
+	})
+	if !ok {
+		return ""
+	}
+	return holder
+}
+
 func runC12(c *Ctx) {
 	r := c.R
 	r.Rule("W1", "every file-system mutation has a role in the closed table", 9)
@@ -76,6 +95,18 @@ func runC12(c *Ctx) {
 		key := funcKey(s.fn) + "/" + s.name
 		role, ok := c12Roles[key]
 		seenRole[key] = true
+		if !ok {
+			// a helper extracted from a function that holds the role: the call sits in a
+			// function that is only ever called (directly) from role holders for this callee
+			if holder := inheritedRole(s.fn, s.name); holder != "" {
+				seenRole[holder] = true
+				r.Discharge("W1", key, c.P.pos(s.ins.Pos()), "helper called only from "+strings.SplitN(holder, "/", 2)[0]+", which holds the role: "+c12Roles[holder])
+				if c12TargetWriting[holder] {
+					c12TargetWriting[key] = true
+				}
+				continue
+			}
+		}
 		if !ok {
 			r.Finding("W1", key, c.P.pos(s.ins.Pos()), "file-system mutation outside the role table of the in-place protocol: not known to preserve 'old or complete new content'")
 			continue
@@ -304,9 +335,35 @@ func runC12(c *Ctx) {
 		r.Fatal("anchor missing: (*writeInPlaceHandlerImpl).CreateTempFile")
 		return
 	}
-	isChmod := func(ins ssa.Instruction) bool {
+	var isChmod func(ins ssa.Instruction) bool
+	chmodDepth := 0
+	isChmod = func(ins ssa.Instruction) bool {
 		cc := callCommon(ins)
-		if cc == nil || calleeName(cc) != "os.Chmod" || len(cc.Args) != 2 {
+		if cc == nil {
+			return false
+		}
+		// a module helper every success return of which passes the Chmod
+		if h := cc.StaticCallee(); h != nil && h.Blocks != nil && strings.HasPrefix(funcKey(h), "yqlib.") && calleeName(cc) != "os.Chmod" && chmodDepth < 2 {
+			chmodDepth++
+			defer func() { chmodDepth-- }()
+			nret, all := 0, true
+			for _, b := range h.Blocks {
+				ret, ok := b.Instrs[len(b.Instrs)-1].(*ssa.Return)
+				if !ok {
+					continue
+				}
+				// error exits of the helper (a non-nil error tested) do not count
+				if isErrorExit(ret) {
+					continue
+				}
+				nret++
+				if pathAvoiding(h, h.Blocks[0], 0, b, len(b.Instrs)-1, isChmod) {
+					all = false
+				}
+			}
+			return nret > 0 && all
+		}
+		if calleeName(cc) != "os.Chmod" || len(cc.Args) != 2 {
 			return false
 		}
 		// mode argument derives from (FileInfo).Mode() of os.Stat(...)
